@@ -625,13 +625,16 @@ func (it *Interp) instr(f *frame, in ssa.Instruction) {
 				if it.H.Polys {
 					r.Poly = nil
 					r.PolyMod = false
-					if pv := it.polyOf(iv); pv != nil && !iv.Signed && !sg && iv.Lo.Sign() >= 0 {
-						if iv.PolyMod {
-							if w <= iv.W {
+					if pv := it.polyOf(iv); pv != nil {
+						switch {
+						case !iv.PolyMod && iv.Lo.Cmp(minOf(w, sg)) >= 0 && iv.Hi.Cmp(maxOf(w, sg)) <= 0:
+							r.Poly = pv // value preserved
+						case !sg && !iv.Signed && w <= iv.W:
+							if iv.PolyMod {
 								r.Poly = it.polyLowMod(pv, w)
+							} else {
+								r.Poly = it.polyLow(pv, iv.Hi, w)
 							}
-						} else {
-							r.Poly = it.polyLow(pv, iv.Hi, w)
 						}
 					}
 				}
